@@ -518,7 +518,7 @@ func initReflectProg(p *program) {
 		}, nil))
 	}
 	p.rtypeM = methodSet{}
-	for _, n := range []string{"Bits", "Elem", "Field", "In", "Kind", "NumField", "NumIn", "NumMethod", "NumOut", "Out", "Size", "String"} {
+	for _, n := range []string{"Bits", "Elem", "Field", "In", "Kind", "NumField", "NumIn", "NumMethod", "NumOut", "Out", "Size", "String", "Name", "PkgPath", "Implements", "Method", "FieldByName"} {
 		p.rtypeM[n] = newMethod(p.reflPkg, rtypeType, n)
 	}
 	p.errorM = methodSet{
